@@ -11,7 +11,7 @@ def _base(prop):
     r=subprocess.run([exe,'-inner','-property',prop,'-repo','/repo'],capture_output=True,text=True)
     line=[l for l in r.stdout.splitlines() if l.startswith('INNER-SUMMARY ')]
     if not line: return set()
-    return set(f['Key'] for f in (json.loads(line[0][len('INNER-SUMMARY '):])['failed'] or []))
+    return set((f['Key'],f.get('Why','')) for f in (json.loads(line[0][len('INNER-SUMMARY '):])['failed'] or []))
 BASE={}
 def base(prop):
     if prop not in BASE: BASE[prop]=_base(prop)
@@ -35,7 +35,7 @@ for p in patches:
             s=json.loads(line[0][len('INNER-SUMMARY '):])
             if s.get('status')==2: hits.append('%s:NO-VERDICT(%s)'%(prop,(r.stderr.strip().splitlines() or ['?'])[0][:120]))
             for f in s['failed'] or []:
-                if f['Key'] in base(prop): continue
+                if (f['Key'],f.get('Why','')) in base(prop): continue
                 hits.append('%s @%s'%(f['Key'][:110],f['Pos']))
         real=[h for h in hits if 'NO-VERDICT' not in h]
         print('%-40s %s'%(os.path.basename(os.path.dirname(p))+'/'+os.path.basename(p), 'DETECTED' if real else ('no-verdict' if hits else 'missed')))
